@@ -11,6 +11,13 @@ package main
 // BeginBlocker panicked: the partial state), the keeper's signals from the emitted events, the hook
 // invocations from the hooks themselves.
 //
+// OBSERVING subscribers: at EVERY signal each subscriber first queries the epochs keeper through the context it was
+// handed (GetEpochInfo of the signalling timer, AllEpochInfos, NumBlocksSinceEpochStart) and logs what it saw; the
+// oracle demands that during start-of-epoch n the stored timer IS in epoch n (counting started, start time on the
+// grid start+(n-1)*dur, start height = this block, 0 blocks since the start) and during end-of-epoch n it is still in
+// epoch n (start height = the block in which epoch n started): "end-of-epoch n strictly before start-of-epoch n+1,
+// each timer starts at its start time" in terms of the state visible to subscribers.
+//
 // The oracle recomputes, from the history alone, what the property demands (never before start, first tick,
 // <=1 tick per block, tick iff blockTime > end (strict), grid via start+(n-1)*dur, canonical signal stream,
 // every subscriber once per signal in registration order, stores = fold of the ok invocations' writes,
@@ -64,6 +71,34 @@ type epCall struct {
 	sub  int
 }
 
+// epView: what a subscriber read from the epochs keeper inside one hook invocation
+type epView struct {
+	own      epTimer  // GetEpochInfo(id)
+	all      []string // AllEpochInfos: id:epoch (printed: the epoch numbers in store order)
+	since    int64    // NumBlocksSinceEpochStart
+	sinceErr bool
+	panicked bool
+}
+
+func (v epView) String() string {
+	st := 0
+	if v.own.started {
+		st = 1
+	}
+	eps := make([]string, len(v.all))
+	for i, a := range v.all {
+		eps[i] = a[strings.LastIndex(a, ":")+1:]
+	}
+	s := fmt.Sprintf("%d/%s/%d/%d/%d/%s", v.own.epoch, v.own.curStart, st, v.own.height, v.since, strings.Join(eps, ";"))
+	if v.sinceErr {
+		s += "!since-err"
+	}
+	if v.panicked {
+		s += "!query-panicked"
+	}
+	return s
+}
+
 func (c epCall) String() string { return fmt.Sprintf("%s.%s.%d.%d", c.id, c.kind, c.n, c.sub) }
 
 type epEngine struct {
@@ -73,6 +108,7 @@ type epEngine struct {
 	nsubs    int
 	script   map[string]epEntry // key id:kind:sub
 	calls    []epCall
+	views    []epView
 	gasLimit uint64
 }
 
@@ -93,6 +129,20 @@ func epSubPrefix(i int) []byte { return []byte(fmt.Sprintf("sub%d/", i)) }
 
 func (e *epEngine) invoke(ctx sdk.Context, idx int, kind, id string, n int64) error {
 	e.calls = append(e.calls, epCall{id, kind, n, idx})
+	// observe the epochs keeper from inside the callback, through the context the hook was handed
+	var v epView
+	rctx := ctx.WithGasMeter(storetypes.NewInfiniteGasMeter())
+	if !catch(func() {
+		v.own = epFromInfo(e.k.GetEpochInfo(rctx, id))
+		for _, i := range e.k.AllEpochInfos(rctx) {
+			v.all = append(v.all, fmt.Sprintf("%s:%d", i.Identifier, i.CurrentEpoch))
+		}
+		nb, err := e.k.NumBlocksSinceEpochStart(rctx, id)
+		v.since, v.sinceErr = nb, err != nil
+	}) {
+		v.panicked = true
+	}
+	e.views = append(e.views, v)
 	ent, ok := e.script[fmt.Sprintf("%s:%s:%d", id, kind, idx)]
 	if !ok {
 		return nil
@@ -219,7 +269,7 @@ func epShowStore(m map[string]string) string {
 	return b.String()
 }
 
-func epObs(panicked bool, ts []epTimer, stores []map[string]string, sigs []string, calls []epCall) string {
+func epObs(panicked bool, ts []epTimer, stores []map[string]string, sigs []string, calls []epCall, views []epView) string {
 	var b strings.Builder
 	if panicked {
 		b.WriteString("panic")
@@ -247,6 +297,20 @@ func epObs(panicked bool, ts []epTimer, stores []map[string]string, sigs []strin
 			b.WriteString("|")
 		}
 		b.WriteString(strconv.Itoa(i) + epShowStore(m))
+	}
+	// run-length encoded: the subscribers of one signal read the same state
+	b.WriteString(" V ")
+	for i := 0; i < len(views); {
+		s := views[i].String()
+		j := i + 1
+		for j < len(views) && views[j].String() == s {
+			j++
+		}
+		if i > 0 {
+			b.WriteString(",")
+		}
+		b.WriteString(s + "*" + strconv.Itoa(j-i))
+		i = j
 	}
 	return b.String()
 }
@@ -654,7 +718,7 @@ func epHistory(o *Out, g *Gen) {
 		}
 
 		// ---- run the real BeginBlocker in a cache context of the block context
-		e.calls = nil
+		e.calls, e.views = nil, nil
 		bctx := e.ctx.WithBlockTime(epTime(now)).WithBlockHeight(height).
 			WithGasMeter(storetypes.NewGasMeter(e.gasLimit)).WithEventManager(sdk.NewEventManager())
 		cctx, write := bctx.CacheContext()
@@ -681,7 +745,7 @@ func epHistory(o *Out, g *Gen) {
 				}
 			}
 		}
-		calls := e.calls
+		calls, views := e.calls, e.views
 		if !panicked {
 			write()
 		}
@@ -695,7 +759,7 @@ func epHistory(o *Out, g *Gen) {
 				nticks++
 			}
 		}
-		o.Emit(op, epObs(panicked, its, istores, sigs, calls), nticks > 0)
+		o.Emit(op, epObs(panicked, its, istores, sigs, calls, views), nticks > 0)
 		if nticks >= 2 {
 			o.Count("block:ticks>=2")
 		} else {
@@ -740,7 +804,64 @@ func epHistory(o *Out, g *Gen) {
 			for _, p := range timers {
 				prev = append(prev, p.obs())
 			}
-			return fmt.Sprintf("prev=[%s] op=%q impl=%q", strings.Join(prev, ";"), op, epObs(panicked, its, istores, sigs, calls))
+			return fmt.Sprintf("prev=[%s] op=%q impl=%q", strings.Join(prev, ";"), op, epObs(panicked, its, istores, sigs, calls, views))
+		}
+		// ---- the state visible to subscribers inside each signal (also in a block that goes on to fail)
+		for ci, c := range calls {
+			if ci >= len(views) {
+				break
+			}
+			v := views[ci]
+			pi := -1
+			for i, p := range timers {
+				if p.id == c.id {
+					pi = i
+				}
+			}
+			if pi < 0 {
+				continue // unknown timer: reported by the hook-order / signal oracles
+			}
+			p := timers[pi]
+			sig := map[string]string{"s": "start-signal", "e": "end-signal"}[c.kind]
+			o.Count("view:" + sig)
+			vfail := func(what string) {
+				o.Fail("visible-state:"+sig+":"+what, detail()+fmt.Sprintf(" call=%s saw=%s", c, v))
+			}
+			if v.panicked || v.sinceErr || v.own.id != c.id {
+				vfail("query-failed")
+				continue
+			}
+			gridN := new(big.Int).Add(p.start, new(big.Int).Mul(big.NewInt(c.n-1), p.dur))
+			switch {
+			case !v.own.started:
+				vfail("timer-not-started")
+			case v.own.epoch != c.n:
+				vfail("stale-epoch-number")
+			case v.own.curStart.Cmp(gridN) != 0:
+				vfail("start-time-off-grid")
+			case c.kind == "s" && v.own.height != height:
+				vfail("start-height-not-this-block")
+			case c.kind == "s" && v.since != 0:
+				vfail("blocks-since-start")
+			case c.kind == "e" && v.own.height != p.height:
+				vfail("start-height-changed-before-end")
+			case c.kind == "e" && v.since != height-p.height:
+				vfail("blocks-since-start")
+			}
+			// the other timers: those before the signalling one (store order) already processed, the later ones not yet
+			var wantAll []string
+			for i, q := range timers {
+				ep := q.epoch
+				if i < pi {
+					ep = preds[i].want.epoch
+				} else if i == pi {
+					ep = c.n
+				}
+				wantAll = append(wantAll, fmt.Sprintf("%s:%d", q.id, ep))
+			}
+			if strings.Join(v.all, ";") != strings.Join(wantAll, ";") {
+				o.Fail("visible-state:"+sig+":all-epoch-infos", detail()+fmt.Sprintf(" call=%s saw=%s want=%v", c, v, wantAll))
+			}
 		}
 		// out-of-gas propagation
 		if oogAt != "" && !panicked {
@@ -889,7 +1010,7 @@ func epHistory(o *Out, g *Gen) {
 
 		if g.Intn(70) == 0 || b == nblocks-1 {
 			dts, dst := e.readState(e.ctx)
-			o.Emit("epochs dump", epObs(false, dts, dst, nil, nil), false)
+			o.Emit("epochs dump", epObs(false, dts, dst, nil, nil, nil), false)
 			if len(dts) != len(timers) || !epStoresEq(dst, stores) {
 				o.Fail("commit-mismatch", detail())
 			}
